@@ -4,6 +4,7 @@ import (
 	"fmt"
 
 	"github.com/ipld/go-ipld-prime/datamodel"
+	"github.com/ipld/go-ipld-prime/schema"
 )
 
 // Selector is a "compiled" and executable IPLD Selector.
@@ -227,8 +228,14 @@ func (msi mapSegmentIterator) Next() (pathSegment datamodel.PathSegment, value d
 	if err != nil {
 		return datamodel.PathSegment{}, v, err
 	}
-	kstr, _ := k.AsString()
-	return datamodel.PathSegmentOfString(kstr), v, err
+	if tk, ok := k.(schema.TypedNode); ok {
+		k = tk.Representation()
+	}
+	kstr, err := k.AsString()
+	if err != nil {
+		return datamodel.PathSegment{}, v, err
+	}
+	return datamodel.PathSegmentOfString(kstr), v, nil
 }
 
 func (msi mapSegmentIterator) Done() bool {
